@@ -21,9 +21,10 @@
 -/
 namespace Lungo.Own
 
-abbrev ObjId := Nat
+/-- object identities (expands to `Nat` at parse time so that `omega` sees through it) -/
+macro "ObjId" : term => `(Nat)
 /-- run-time value of a namespace handle; `0` is `local.oplog` -/
-abbrev HandleV := Nat
+macro "HandleV" : term => `(Nat)
 abbrev Var := String
 
 /-! ## Heap -/
@@ -360,20 +361,35 @@ def Mut.restrict (mu : Mut) (fp : Footprint) : Mut :=
 def idxWrites (bound : Nat) (idxs : List (String × ObjId)) (ws : List (String × List ObjId)) : List (ObjId × Obj) :=
   ws.filterMap fun w => (idxs.lookup w.1).map fun p => (p, Obj.idx (w.2.filter (· < bound)))
 
-/-- apply a (restricted) mutation to the collection object `o = coll s idxs`; `args` = DocNodes of the
-    argument.  Document ids mentioned by the mutation are clipped to allocated ids. -/
-def applyMut (h : Heap) (o s : ObjId) (idxs : List (String × ObjId)) (args : List ObjId) (mu : Mut) : Heap :=
-  let (h1, _) := h.allocs (mu.newDocs.map Obj.doc)
-  let bound := h1.size
+/-- first stages of a mutation: allocate the new DocNodes, write the argument's nodes, the Set, the
+    existing indexes.  Document ids mentioned by the mutation are clipped to allocated ids. -/
+def applyMutPre (h : Heap) (s : Nat) (idxs : List (String × Nat)) (args : List Nat) (mu : Mut) : Heap :=
+  let h1 := (h.allocs (mu.newDocs.map Obj.doc)).1
   let h2 := h1.writes (args.zip (mu.argVals.map Obj.doc))
   let h3 := match mu.list with
-    | some l => h2.write s (.set (l.filter (· < bound)))
+    | some l => h2.write s (.set (l.filter (· < h1.size)))
     | none => h2
-  let h4 := h3.writes (idxWrites bound idxs mu.idx)
-  let kept := idxs.filter fun p => !mu.drop.contains p.1
-  let (h5, fresh) := h4.allocs (mu.add.map fun a => Obj.idx (a.2.filter (· < bound)))
-  if mu.drop.isEmpty && mu.add.isEmpty then h5
-  else h5.write o (.coll s (kept ++ (mu.add.map (·.1)).zip fresh))
+  h3.writes (idxWrites h1.size idxs mu.idx)
+
+/-- apply a (restricted) mutation to the collection object `o = coll s idxs`; `args` = DocNodes of the
+    argument.  Last stage: the Indexes map (fresh indexes added, names dropped) — in place on `o`. -/
+def applyMut (h : Heap) (o s : Nat) (idxs : List (String × Nat)) (args : List Nat) (mu : Mut) : Heap :=
+  let h4 := applyMutPre h s idxs args mu
+  let bound := (h.allocs (mu.newDocs.map Obj.doc)).1.size
+  let r5 := h4.allocs (mu.add.map fun a => Obj.idx (a.2.filter (· < bound)))
+  if mu.drop.isEmpty && mu.add.isEmpty then r5.1
+  else r5.1.write o (.coll s (idxs.filter (fun p => !mu.drop.contains p.1) ++ (mu.add.map (·.1)).zip r5.2))
+
+def St.argDocs (st : St) : Option Var → List Nat
+  | some a => st.docsOf a
+  | none => []
+
+/-- `…, err = recv.M(arg…)` on the collection object `o = coll s idxs`: the next `Mut` of the choices,
+    restricted to the method's footprint, is applied; `err` is set from its outcome -/
+def callCollSt (st : St) (o s : Nat) (idxs : List (String × Nat)) (m : Method) (arg : Option Var) : St :=
+  let mu := st.popMut.1.restrict m.footprint
+  let st' : St := { st.popMut.2 with heap := applyMut st.heap o s idxs (st.argDocs arg) mu }
+  if m.fallible then st'.setErr (!mu.ok) else st'
 
 /-- run `f` up to `n` times; `next`/`cont` go on, `brk` ends the loop normally, `ret`/`panic` propagate -/
 def iterate (f : St → St × Sig) : Nat → St → St × Sig
@@ -423,12 +439,7 @@ def exec : Stmt → St → St × Sig
     | _ => (st, .panic)
   | .callColl recv m arg, st =>
     match st.obj recv with
-    | some (o, .coll s idxs) =>
-      let (mu, st) := st.popMut
-      let mu := mu.restrict m.footprint
-      let args := match arg with | some a => st.docsOf a | none => []
-      let st' : St := { st with heap := applyMut st.heap o s idxs args mu }
-      (if m.fallible then st'.setErr (!mu.ok) else st', .next)
+    | some (o, .coll s idxs) => (callCollSt st o s idxs m arg, .next)
     | _ => (st, .panic)
   | .setCatalog v, st =>
     match st.var v with
@@ -485,8 +496,9 @@ def run (p : Prog) (a : Args) (ch : Choices) (ht : Heap × TxnState) : Heap × T
 /-! ## The static ownership check
 
   Abstract state at a program point:
-    * `owned`     variables bound IN THIS CALL by `cloneCatalog` / `newColl` / `cloneColl` / `cloneDocs`
+    * `owned`     catalog/collection variables bound IN THIS CALL by `cloneCatalog` / `newColl` / `cloneColl`
                   (never by a lookup or an alias) and not rebound since;
+    * `ownedDocs` document variables bound in this call by `cloneDocs`;
     * `tcatOwned` `t.catalog` currently points to a catalog cloned in this call (Create);
     * `assigned`  `t.catalog` or `t.dirty` may have been assigned already;
     * `suspect`   receivers of the LAST Collection call, and catalogs they were installed in: they hold
@@ -500,6 +512,7 @@ def run (p : Prog) (a : Args) (ch : Choices) (ht : Heap × TxnState) : Heap × T
 
 structure Abs where
   owned : List Var := []
+  ownedDocs : List Var := []
   tcatOwned : Bool := false
   assigned : Bool := false
   suspect : List Var := []
@@ -509,6 +522,10 @@ structure Abs where
 
 namespace Abs
 def owns (a : Abs) (v : Var) : Bool := v != tcat && a.owned.contains v
+def ownsDocs (a : Abs) (v : Var) : Bool := a.ownedDocs.contains v
+def argOwned (a : Abs) : Option Var → Bool
+  | some x => a.ownsDocs x
+  | none => true
 def ownsCat (a : Abs) (c : Var) : Bool := a.owns c || (c == tcat && a.tcatOwned)
 /-- forget everything known about `v` (it is being rebound) -/
 def forget (a : Abs) (v : Var) : Abs :=
@@ -520,12 +537,13 @@ def bindAlias (a : Abs) (v : Var) : Abs := let a := a.forget v; { a with tainted
 /-- `err` is about to be overwritten: what was suspect can no longer be cleared by an error check -/
 def commitSuspects (a : Abs) : Abs := { a with tainted := a.suspect ++ a.tainted, suspect := [] }
 def join (a b : Abs) : Abs :=
-  { owned := a.owned.filter (b.owned.contains ·), tcatOwned := a.tcatOwned && b.tcatOwned,
+  { owned := a.owned.filter (b.owned.contains ·), ownedDocs := a.ownedDocs.filter (b.ownedDocs.contains ·),
+    tcatOwned := a.tcatOwned && b.tcatOwned,
     assigned := a.assigned || b.assigned, suspect := a.suspect ++ b.suspect,
     tainted := a.tainted ++ b.tainted, contents := a.contents ++ b.contents }
 /-- `le a b`: `a` claims no more than `b` -/
 def le (a b : Abs) : Bool :=
-  a.owned.all (b.owned.contains ·) && (!a.tcatOwned || b.tcatOwned) && (!b.assigned || a.assigned) &&
+  a.owned.all (b.owned.contains ·) && a.ownedDocs.all (b.ownedDocs.contains ·) && (!a.tcatOwned || b.tcatOwned) && (!b.assigned || a.assigned) &&
   b.suspect.all (a.suspect.contains ·) && b.tainted.all (a.tainted.contains ·) &&
   b.contents.all (a.contents.contains ·)
 end Abs
@@ -560,7 +578,7 @@ def Cond.refine : Cond → Abs → Abs × Abs
 mutual
 def check (strict : Bool) : Stmt → Abs → Res
   | .validate, a => .step true a.commitSuspects
-  | .cloneDocs dst _, a => .step true (a.bindOwned dst)
+  | .cloneDocs dst _, a => .step true { a with ownedDocs := dst :: a.ownedDocs }
   | .cloneCatalog dst _, a => .step true (a.bindOwned dst)
   | .alias dst _, a => .step true (a.bindAlias dst)
   | .newColl dst, a => .step true (a.bindOwned dst)
@@ -573,7 +591,7 @@ def check (strict : Bool) : Stmt → Abs → Res
   | .setNsNew c _, a => .step (a.ownsCat c) a
   | .deleteNs c _, a => .step (a.ownsCat c) a
   | .callColl recv m arg, a =>
-    let argOk := !strict || !m.footprint.arg || (match arg with | some x => a.owns x | none => true)
+    let argOk := !strict || !m.footprint.arg || a.argOwned arg
     let a' := a.commitSuspects
     .step (a.owns recv && !a.assigned && argOk)
       (if m.fallible then { a' with suspect := recv :: (a.contents.filter (·.2 == recv)).map (·.1) } else a)
